@@ -217,6 +217,9 @@ WORDS = ["alpha", "beta", "gamma", "delta 4", "k = v", "end.", "bend", "x1", "xx
 NAMES = ["A", "B", "color", "Toggles", "cc", "menu"]
 
 
+PROGS = ["libast", "tsabil", "LIBAST", "Eterm", "etern", "x", "my-configurator", "my-configuratos"]
+
+
 def L(s, x=0):
     return {"x": x, "t": [ord(c) for c in s]}
 
@@ -260,7 +263,12 @@ def gen_tree(rnd, big):
             else:
                 lines.append(L(pad + rnd.choice(WORDS) + pad, x=rnd.choice([0, 0, 0, 1, 3])))
         content.append(lines)
+    # process-wide setting read by the parser: the program name (the magic line must carry the CURRENT one); files mostly carry
+    # it, sometimes the name of another (earlier) execution
+    prog = rnd.choice(PROGS)
+    magic = [prog] + [prog if rnd.random() < 0.8 else rnd.choice(PROGS) for _ in range(nfiles - 1)]
     return {"fam": "list", "n": 0, "regfam": "list", "nreg": 0, "names": [[ord(c) for c in n] for n in reg], "nullmode": nullmode,
+            "prog": [ord(c) for c in prog], "magic": [[ord(c) for c in m] for m in magic],
             "kinds": kinds, "maxlen": [0] * nfiles, "alpha": "none", "content": content}
 
 
@@ -271,9 +279,46 @@ FIRST_BYTES = [v for v in range(3, 256) if v not in EXPANSION_BYTES and v not in
 SIZES = sorted(set(n + d for n in (8, 16, 32, 64, 128, 256, 512, 1024, 2048, 4096, 8192, 20478) for d in (-1, 0, 1)))
 
 
-def _one(names, nullmode, lines):
+def _one(names, nullmode, lines, prog="libast", magic=None, more=()):
+    files = [lines] + list(more)
     return {"fam": "list", "n": 0, "regfam": "list", "nreg": 0, "names": [[ord(c) for c in n] for n in names], "nullmode": nullmode,
-            "kinds": ["ok"], "maxlen": [0], "alpha": "none", "content": [lines]}
+            "prog": [ord(c) for c in prog], "magic": [[ord(c) for c in m] for m in (magic or [prog] * len(files))],
+            "kinds": ["ok"] * len(files), "maxlen": [0] * len(files), "alpha": "none", "content": files}
+
+
+LONGBASE = "".join("%s%d." % (w, i) for i, w in enumerate(["color", "menu", "Toggles", "keys", "image", "misc"] * 40))
+
+
+def name_and_setting_families(tier):
+    """Direction-B inputs about NAMES and process-wide settings:
+    context names - for every length n (all of 1..140, and n-1, n, n+1 around the powers of two up to 1024) two registered
+    names that share their first n-1 characters, the look-alike registered first; begin lines with the second name, with a
+    third (unregistered) sibling, with the name extended and shortened by one character, in another case;
+    program name - a sequence of parses between which the program is renamed (same length, other length, case change); the
+    files carry the magic line of the current name, of the previous one, of a name that only shares a prefix."""
+    out = []
+    lens = sorted(set(list(range(1, 141)) + [n + d for n in (256, 512, 1024) for d in (-1, 0, 1)]))
+    if tier == "quick":
+        lens = [n for n in lens if n <= 140 or n in (255, 256, 257)]
+    for c0 in range(0, len(lens), 30):
+        names, lines = [], []
+        for n in lens[c0:c0 + 30]:
+            stem = LONGBASE[:n - 1]
+            a, b, c = stem + "a", stem + "b", stem + "c"
+            names += [a, b]
+            for nm in (b, a, c, b + "x", b.upper(), (stem[:-1] + "b") if n > 1 else "q"):
+                lines += [L("begin " + nm), L("t %d" % n), L("end")]
+        out.append(_one(names, "first", lines))
+    # renames: every ordered pair of a few names, file 2 carrying the previous / a look-alike / the current name
+    prev = PROGS[-1]
+    for k, prog in enumerate(PROGS + PROGS[::-1] + [PROGS[0], PROGS[1], PROGS[0], PROGS[1], PROGS[0]]):
+        body = [L("begin A"), L("a"), L("%include f002.cfg"), L("%include f003.cfg"), L("b"), L("end")]
+        out.append(_one(["A"], "first", body, prog=prog, magic=[prog, prev, prog if k % 2 else prog + "s"], more=[[L("old")], [L("cur")]]))
+        out.append(_one(["A"], "first", body, prog=prog, magic=[prev, prog, prog], more=[[L("old")], [L("cur")]]))
+        prev = prog
+    return out
+
+
 
 
 def value_and_size_families(tier):
@@ -314,9 +359,9 @@ def value_and_size_families(tier):
 
 
 def tree_script(sid, cfg):
-    out = ["S %d" % sid, "init = ? ?"]
+    out = ["S %d" % sid, "prog %s = ? ?" % x_c09.blist(cfg["prog"]), "init = ? ?"]
     for f, (k, lines) in enumerate(zip(cfg["kinds"], cfg["content"]), 1):
-        data = x_c09.file_bytes({"kind": k, "lines": lines})
+        data = x_c09.file_bytes({"kind": k, "lines": lines, "magic": cfg["magic"][f - 1]})
         if data is not None:
             out.append("file %s %s = ? ?" % (x_c09.blist(("f%03d.cfg" % f).encode()), x_c09.blist(data)))
     regl = ([[110, 117, 108, 108]] if cfg["nullmode"] == "first" else []) + cfg["names"] + ([[110, 117, 108, 108]] if cfg["nullmode"] == "last" else [])
@@ -331,7 +376,7 @@ def trace_validation(ctx, exe):
     from vlib import trace
     rnd = random.Random(ctx.seed)
     n = 300 if ctx.tier == "quick" else 3000
-    fam = value_and_size_families(ctx.tier)
+    fam = value_and_size_families(ctx.tier) + name_and_setting_families(ctx.tier)
     cfgs = fam + [gen_tree(rnd, big=(k % 4 == 0)) for k in range(n)]
     ctx.cov["value_and_size_family_executions"] = len(fam)
     scripts = [tree_script(k + 1, c) for k, c in enumerate(cfgs)]
